@@ -142,7 +142,18 @@ def choose(ctx, rng, direction, env, budget_factor=1):
         for ck in sorted(byclass):
             lst = byclass[ck]
             add(lst[rng.integers(len(lst))])
-        total = (400 if direction == 'inverse' else 300) * budget_factor
+        # whole-image methods: every (option class, size) once, with the most anisotropic admissible source
+        # (errors of the angular machinery often need a particular size residue or angular order to show)
+        groups = {}
+        for c in small:
+            if c['method'] in sweep.FULL_METHODS:
+                groups.setdefault((classkey(c), c['n']), []).append(c)
+        for g in sorted(groups):
+            lst = groups[g]
+            kmax = max(c['fam'].get('k', -1) for c in lst)
+            best = [c for c in lst if c['fam'].get('k', -1) == kmax]
+            add(best[rng.integers(len(best))])
+        total = max(len(chosen) + 100, (400 if direction == 'inverse' else 300)) * budget_factor
         idx = rng.permutation(len(small))
         for i in idx:
             if len(chosen) >= total:
@@ -210,6 +221,8 @@ def run_sweep(ctx, rng, direction, pid, enlarged=False):
         for opts in optl:
             ck = '%s|%s|%s' % (direction, method, sweep.optkey(opts))
             bases = sweep.refine_bases(method, opts, thorough=not ctx.quick)
+            if ctx.quick and not enlarged and method in sweep.FULL_METHODS and len(bases) > 1:
+                bases = [bases[int(rng.integers(len(bases)))]]      # quick: one base per whole-image class
             for base in bases:
                 # classes with a recorded error floor are always refined as far as the thorough tier
                 # goes (the recorded growth of basex correction=False shows only between 201 and 301 px),
